@@ -416,8 +416,21 @@ REQUIRED_PROBES = [
 def write_evidence(tier, verif_seed, total, determinism, tree, wall, violations, minimised, workers, run_wall, worker_crashes=0) -> None:
     runs = total['runs']
     samples = []
-    for s in total['samples'][:3]:
-        samples.append({'sub_campaign': s['sub'], 'run_seed': s['spec']['seed'], 'world': s['spec']['world'], 'swarm': s['spec']['swarm'], 'programs': s['spec']['programs'], 'cancels': s['spec']['cancels'], 'decisions': s['decisions'], 'digest': s['digest']})
+    for k, s in enumerate(total['samples'][:3]):
+        if k == 0:
+            # written-out history of the first sample: the run is re-executed here from its recorded
+            # decisions (same digest) with the event log kept
+            try:
+                from sim import runner
+
+                again = dict(s['spec'])
+                again['decisions'] = s['decisions']
+                res = runner.run_spec(again, keep_events=True)
+                s = dict(s, history_excerpt=res['events'][:60], history_events=res['n_events'], history_digest_matches=res['digest'] == s['digest'])
+            except Exception as exc:  # never let the illustration break the evidence
+                s = dict(s, history_excerpt=[f'unavailable: {exc!r}'])
+        samples.append({'sub_campaign': s['sub'], 'run_seed': s['spec']['seed'], 'world': s['spec']['world'], 'swarm': s['spec']['swarm'], 'programs': s['spec']['programs'], 'cancels': s['spec']['cancels'], 'decisions': s['decisions'], 'digest': s['digest'],
+                        **({'history_excerpt': s['history_excerpt'], 'history_events': s.get('history_events'), 'history_digest_matches': s.get('history_digest_matches')} if 'history_excerpt' in s else {})})
     evidence = {
         'property_id': PROPERTY,
         'tier': 'thorough' if tier == 'thorough' else 'quick',
